@@ -168,6 +168,15 @@ def name_failures(res, gen_lines, linemap, unit):
                 repo_loc = "%s:%d" % (o[1], o[2])
             if o and o[0] == "spec" and not spec_loc:
                 spec_loc = "%s:%d" % (os.path.basename(o[1]), o[2])
+        if not repo_loc and spans:
+            # the failing line is contract / proof text: point at the code it is about — the nearest line of /repo origin after it
+            # (the body follows the contract; a spliced proof step precedes the statement it talks about), else the nearest before
+            a0 = spans[0][0]
+            for ln in list(range(a0, min(a0 + 400, len(linemap)))) + list(range(a0 - 1, max(a0 - 400, 0), -1)):
+                o = linemap[ln - 1] if 0 < ln <= len(linemap) else None
+                if o and o[0] == "repo":
+                    repo_loc = "%s:%d(nearest-code-line)" % (o[1], o[2])
+                    break
         name = "%s::%s%s" % (unit, f["kind"], (":" + tag) if tag else "")
         out.append({"obligation": name, "kind": f["kind"], "tag": tag, "repo_location": repo_loc, "spec_location": spec_loc,
                     "message": f["message"], "rendered": f["rendered"]})
